@@ -179,6 +179,9 @@ def run_case(case):
             finally:
                 CC.tqdm = real_tqdm
         except Exception as e:
+            if case[1] < 0:
+                # the harness's own triples: their targets ARE produced on a healthy tree, so 'never produced' means the labelling compares wrongly
+                return {"o": "corpus:extra-raises", "nt": True, "v": [viol({"kind": "run_corpus", "why": "target_never_labelled_positive"}, "run_corpus({!r}, {}) raised {!r}: no candidate was labelled positive although the target value is produced".format(target, list(tests), e))]}
             return {"o": "corpus:raises", "skip": "run_corpus raised for this triple (target never produced: test_run_corpus territory)", "nt": False}
         gold = obs(parse_nb_string(target))
         ts = datetime.strptime(ts_s, "%Y-%m-%dT%H:%M")
